@@ -117,6 +117,16 @@ def generate18(R, tier):
         inner = rngsim.generate(R2, tier, 'C18')
         inner['ops'] = []
     region = gen.gen_lattice(R, max_cells=12, allow_holes=R.random() < 0.5)
+    if R.random() < 0.4:
+        # lattices whose anchor / spacing are not short decimals ("for all Cartesian lattices")
+        dh = R.choice((1.0 / 3.0, 0.1, 0.3, 1.0 / 7.0, 0.25, 1.0))
+        ax = R.choice((1.0 / 7.0, -2.0 / 3.0, 0.1 + 1.0 / 3.0, 100.0 / 7.0, -0.7, 33.3))
+        ay = R.choice((1.0 / 7.0, -2.0 / 3.0, 0.2 + 1.0 / 3.0, -100.0 / 7.0, 0.3, -44.4))
+        nx, ny = R.randint(1, 4), R.randint(1, 3)
+        cells = [[ax + i * dh, ay + j * dh] for i in range(nx) for j in range(ny)]
+        R.shuffle(cells)
+        region = {'kind': 'cart', 'dh': dh, 'origins': cells, 'holes': [], 'odd': True,
+                  'bbox': [ax, ay, ax + nx * dh, ay + ny * dh]}
     return {'engine': 'persistsim', 'kind': 'C18', 'sub': sub, 'inner': inner, 'region18': region,
             'mags18': gen.gen_mags(R), 'backup': R.random() < 0.3, 'calibration': R.random() < 0.4,
             'probe_seed': R.randint(0, 10 ** 9), 'tz': R.choice(TZ_CHOICES), 'clock_us': R.randint(0, 4 * 10 ** 15),
@@ -481,7 +491,13 @@ def _execute18(scn, ctx, store, clock):
             ctx.count('probe:backup_files_kept', len([f for f in os.listdir(store.root) if 'backup' in f]))
     # region clause
     reg_lit = scn['region18']
-    a = build.make_region(reg_lit, scn['mags18'])
+    ra_ = call(build.make_region, reg_lit, scn['mags18'])
+    if ra_[0] != 'ok':
+        ctx.count('region_construction_failed:' + ra_[1])      # C01's business
+        return
+    a = ra_[1]
+    if reg_lit.get('odd'):
+        ctx.count('rare:lattice_with_non_decimal_anchor')
     r = call(lambda: CartesianGrid2D.from_dict(a.to_dict()))
     if r[0] != 'ok':
         ctx.violate('C18', 'region', 'from_dict:%s' % r[1], {'msg': r[2]})
@@ -501,6 +517,10 @@ def _execute18(scn, ctx, store, clock):
             lon, lat = o[0] + dh * 0.5, o[1]
         elif x < 0.8:
             lon, lat = float(numpy.nextafter(o[0] + dh, -numpy.inf)), o[1] + dh * 0.5
+        elif x < 0.88:
+            lon, lat = o[0] + dh, o[1] + dh                 # upper corner = a neighbour's lower corner
+        elif x < 0.92:
+            lon, lat = o[0] + dh * 0.5, float(numpy.nextafter(o[1], -numpy.inf))
         else:
             lon, lat = gen.point_outside(P, reg_lit)
         ra = call(a.get_index_of, numpy.array([lon]), numpy.array([lat]))
